@@ -56,6 +56,7 @@ func c12ModuleMap() *tengo.ModuleMap {
 	// cmd/tengo, which knows the stdlib only) does not; its table travels inside the bytecode
 	mm.AddBuiltinModule("conf", map[string]tengo.Object{
 		"debug": tengo.TrueValue, "off": tengo.FalseValue, "nothing": tengo.UndefinedValue, "n": &tengo.Int{Value: 10},
+		"err": &tengo.Error{Value: tengo.TrueValue}, "errs": &tengo.Array{Value: []tengo.Object{&tengo.Error{Value: tengo.UndefinedValue}, &tengo.Error{Value: &tengo.Array{Value: []tengo.Object{tengo.FalseValue}}}}},
 		"nested": &tengo.Map{Value: map[string]tengo.Object{"flag": tengo.FalseValue, "list": &tengo.Array{Value: []tengo.Object{tengo.TrueValue, tengo.UndefinedValue, &tengo.String{Value: "conf"}}}}},
 	})
 	return mm
@@ -88,6 +89,7 @@ func c12RefMods() map[string]*ref.Module {
 		return nil, ref.ErrArgType{Name: "first", Expected: "float(compatible)", Found: ref.TypeName(a[0])}
 	}}}}
 	m["conf"] = &ref.Module{Table: map[string]ref.Value{"debug": ref.Bool(true), "off": ref.Bool(false), "nothing": ref.Undef{}, "n": ref.Int(10),
+		"err": &ref.Err{V: ref.Bool(true)}, "errs": ref.NewArr([]ref.Value{&ref.Err{V: ref.Undef{}}, &ref.Err{V: ref.NewArr([]ref.Value{ref.Bool(false)}, false)}}, false),
 		"nested": ref.NewMap(map[string]ref.Value{"flag": ref.Bool(false), "list": ref.NewArr([]ref.Value{ref.Bool(true), ref.Undef{}, ref.Str("conf")}, false)}, false)}}
 	m["text"] = &ref.Module{Table: map[string]ref.Value{"to_upper": &ref.HostFn{Name: "to_upper", F: func(a []ref.Value) (ref.Value, error) {
 		if len(a) != 1 {
@@ -107,7 +109,7 @@ var c12Prefixes = []string{
 	"c1 := import(\"cnt\")\nc2 := import(\"cnt\")\nr0 := [c1(), c1(), c2(), 10, 10, 11]\n",
 	"f := func() { return 10 }\ng := func() { return 10 }\nh := func() { l := import(\"lib\"); return l.add(10, 10) }\nr0 := f() + g() + h() + 10\n",
 	"a := 65; b := 'A'; c := 65.0; d := \"65\"; e := [65, 'A', 65.0, \"65\", 65]; s := \"\" + \"\" + \"A\" + 'A'\n",
-	"conf := import(\"conf\")\nr0 := [conf.debug == true, conf.off == false, conf.nested.flag == false, is_undefined(conf.nothing), conf.nothing == undefined, conf.nested.list[0] == true, conf.nested.list[1] == undefined, conf.debug ? 1 : 0, conf.off || 7, conf.n + 10, conf.nested.list[2] + \"conf\"]\nr1 := [conf.debug, conf.off, conf.nothing]\n",
+	"conf := import(\"conf\")\nr0 := [conf.debug == true, conf.off == false, conf.nested.flag == false, is_undefined(conf.nothing), conf.nothing == undefined, conf.nested.list[0] == true, conf.nested.list[1] == undefined, conf.debug ? 1 : 0, conf.off || 7, conf.n + 10, conf.nested.list[2] + \"conf\"]\nr1 := [conf.debug, conf.off, conf.nothing]\nr2 := [conf.err.value == true, is_undefined(conf.errs[0].value), conf.errs[0].value == undefined, conf.errs[1].value[0] == false, conf.err.value ? 1 : 0]\n",
 	"",
 	"",
 }
@@ -214,7 +216,38 @@ func checkConstPool(bc *tengo.Bytecode) []string {
 	return problems
 }
 
+// sharedModuleProbe: RemoveDuplicates merges the separate tables of a builtin module imported twice
+// into one constant; if the module has a mutable attribute the two imports then share it. Exact
+// input, listed as a known finding.
+func (c *c12) sharedModuleProbe(r *fw.Rec) {
+	src := "ha := import(\"hstate\")\nhb := import(\"hstate\")\nha.state.x = 1\nr0 := hb.state.x\n"
+	mk := func() *tengo.ModuleMap {
+		mm := tengo.NewModuleMap()
+		mm.AddBuiltinModule("hstate", map[string]tengo.Object{"state": &tengo.Map{Value: map[string]tengo.Object{}}})
+		return mm
+	}
+	raw, e1 := compileRaw([]byte(src), nil, mk())
+	dd, e2 := compileRaw([]byte(src), nil, mk())
+	if e1 != nil || e2 != nil {
+		return
+	}
+	if safely(func() error { dd.BC.RemoveDuplicates(); return nil }) != nil {
+		return
+	}
+	a := runRaw(raw, raw.BC, 100_000, nil)
+	b := runRaw(dd, dd.BC, 100_000, nil)
+	r.EvalN(2)
+	r.Inc("shared-module-probe")
+	if a.Globals["r0"] != b.Globals["r0"] || a.ErrText != b.ErrText {
+		r.Violate("dedup:shared-host-module-state", "de-duplication changes the result: two imports of a host module with a mutable attribute share it afterwards",
+			map[string]interface{}{"source": src, "module hstate": "{state: {}} (mutable map attribute)", "original r0": a.Globals["r0"], "after RemoveDuplicates r0": b.Globals["r0"]})
+	}
+}
+
 func (c *c12) RunCase(r *fw.Rec, cs fw.Case) {
+	if cs.Index == 0 {
+		c.sharedModuleProbe(r)
+	}
 	rng := cs.Rng("c12")
 	opts := gen.Options{MaxStmts: 4 + rng.Intn(14), MaxDepth: 2 + rng.Intn(2), CallDefined: true}
 	switch rng.Intn(4) {
